@@ -4,6 +4,7 @@ Rec == ndJsonDeserialize(IOEnv.TRACE)
 VARIABLE l
 TraceInit == Init /\ l = 1
 Reset == /\ Rec[l].act.op = "reset"
+         /\ Rec[l].stack = <<>>            \* a new stack is empty, whichever constructor made it (act.n)
          /\ stack' = <<>> /\ act' = Rec[l].act /\ res' = R("ok", <<>>, NoVal)
 Step == /\ Rec[l].act.op # "reset"
         /\ Do(Rec[l].act)
